@@ -3,6 +3,7 @@ import ZV.Proofs.C28
 import ZV.Proofs.C28Ext
 import ZV.Proofs.C28CH
 import ZV.Proofs.C28SH
+import ZV.Proofs.C28Sched
 /-!
   C28 — the client handshake log records what was actually exchanged.
 
@@ -765,5 +766,162 @@ example : parseFin [20, 0, 0, 2, 1, 2] = some [1, 2] := by decide
 example : parseCerts13 [11, 0, 0, 0, 0, 0, 0, 17, 0, 0, 1, 9, 0, 4, 0x12, 0x34, 0, 0, 0, 0, 2, 7, 8, 0, 0]
     = some ⟨[[9], [7, 8]], false, false⟩ := by
   simp [parseCerts13, readVec8, readU8, readVec24, readU24, takeN, cert13Entries, splitExts, cert13LeafExts, u16]
+
+end ZV.C28
+
+/-! ## The logging schedule of the client handshake (model `ZV.C28.clientLog`, tied by the T2 op `c28 sched`)
+
+`ins` is the sequence of items the record layer hands to the handshake code (with the outcome of the checks the
+code makes on each); positions are positions in `ins`. -/
+namespace ZV.C28
+
+/-- Nothing is logged — not even the ClientHello that was sent — when the first read fails. -/
+theorem sched_nothing_before_first_read (offered : Bool) : clientLog offered [] = {} := rfl
+
+/-- The ServerHello record is built from the FIRST item, and that item is a ServerHello. -/
+theorem sched_sh_src (offered : Bool) (ins : List Item) (i : Nat)
+    (h : (clientLog offered ins).serverHello = some i) : i = 0 ∧ ∃ a, ins[0]? = some (.serverHello a) := by
+  have key := run_inv (fun pre s => s.n = pre.length ∧ (s.phase = .start → pre = []) ∧
+      ∀ i, s.log.serverHello = some i → i = 0 ∧ ∃ a, pre[0]? = some (.serverHello a))
+    (by
+      intro pre s m ⟨hn, hst, hsh⟩
+      refine ⟨by simp [step_n, hn], ?_, ?_⟩
+      · intro hp
+        exfalso
+        have := step_n s m
+        revert hp
+        unfold step
+        cases s.phase <;> cases m <;> simp [St.abort, St.goto, St.finish, onShd, onCreq, onKx, onCert13] <;>
+          (repeat' split) <;> simp
+      · intro i hi
+        rcases step_sh s m with heq | ⟨hp, ⟨a, rfl⟩, hset⟩
+        · obtain ⟨h0, a, ha⟩ := hsh i (heq ▸ hi)
+          exact ⟨h0, a, snoc_old _ _ _ _ ha⟩
+        · have hpre := hst hp
+          subst hpre
+          rw [hset] at hi
+          simp at hn
+          simp [hn] at hi
+          exact ⟨hi.symm, a, by simp⟩)
+    ins [] (St.init offered) ⟨rfl, fun _ => rfl, by intro i hi; simp [St.init] at hi⟩
+  simpa using key.2.2 i h
+
+/-- The ServerKeyExchange record is built from an item that IS a ServerKeyExchange which the key agreement accepted. -/
+theorem sched_skx_src (offered : Bool) (ins : List Item) (i : Nat)
+    (h : (clientLog offered ins).skx = some i) : ins[i]? = some (.serverKeyExchange true) := by
+  have key := run_inv (fun pre s => s.n = pre.length ∧ ∀ i, s.log.skx = some i → pre[i]? = some (.serverKeyExchange true))
+    (by
+      intro pre s m ⟨hn, hk⟩
+      refine ⟨by simp [step_n, hn], ?_⟩
+      intro i hi
+      rcases step_skx s m with heq | ⟨rfl, hset⟩
+      · exact snoc_old _ _ _ _ (hk i (heq ▸ hi))
+      · rw [hset] at hi
+        cases hi
+        exact snoc_len _ _ _ hn)
+    ins [] (St.init offered) ⟨rfl, by intro i hi; simp [St.init] at hi⟩
+  simpa using key.2 i h
+
+/-- The server Finished record is built from an item that IS a Finished message. -/
+theorem sched_sfin_src (offered : Bool) (ins : List Item) (i : Nat)
+    (h : (clientLog offered ins).serverFin = some i) : ∃ ok, ins[i]? = some (.finished ok) := by
+  have key := run_inv (fun pre s => s.n = pre.length ∧ ∀ i, s.log.serverFin = some i → ∃ ok, pre[i]? = some (.finished ok))
+    (by
+      intro pre s m ⟨hn, hk⟩
+      refine ⟨by simp [step_n, hn], ?_⟩
+      intro i hi
+      rcases step_sfin s m with heq | ⟨⟨ok, rfl⟩, hset⟩
+      · obtain ⟨ok, hok⟩ := hk i (heq ▸ hi)
+        exact ⟨ok, snoc_old _ _ _ _ hok⟩
+      · rw [hset] at hi
+        cases hi
+        exact ⟨ok, snoc_len _ _ _ hn⟩)
+    ins [] (St.init offered) ⟨rfl, by intro i hi; simp [St.init] at hi⟩
+  simpa using key.2 i h
+
+/-- The session-ticket record is only written by a handshake that completed; it is either the ticket of a
+    NewSessionTicket message that was received (position `i` holds one), or — when no new ticket came — the
+    ticket of the cached session the client offered (`offered`), never anything else. -/
+theorem sched_ticket_src (offered : Bool) (ins : List Item) :
+    ((clientLog offered ins).ticket ≠ .none → (clientLog offered ins).done = true) ∧
+    (∀ i, (clientLog offered ins).ticket = .msg i → ins[i]? = some .newSessionTicket) ∧
+    ((clientLog offered ins).ticket = .cache → offered = true) := by
+  have key := run_inv (fun pre s => s.n = pre.length ∧ (s.log.done = true → s.phase = .complete) ∧
+      (∀ i, s.sess = .msg i → pre[i]? = some .newSessionTicket) ∧ (s.sess = .cache → offered = true) ∧
+      (s.log.ticket = .none ∨ (s.log.ticket = s.sess ∧ s.log.done = true)))
+    (by
+      intro pre s m ⟨hn, hd, hs, hc, ht⟩
+      have hdone := step_done s m hd
+      refine ⟨by simp [step_n, hn], hdone.1, ?_, ?_, ?_⟩
+      · intro i hi
+        rcases step_sess s m with heq | ⟨rfl, hset⟩
+        · exact snoc_old _ _ _ _ (hs i (heq ▸ hi))
+        · rw [hset] at hi
+          cases hi
+          exact snoc_len _ _ _ hn
+      · intro hi
+        rcases step_sess s m with heq | ⟨_, hset⟩
+        · exact hc (heq ▸ hi)
+        · rw [hset] at hi; cases hi
+      · rcases step_ticket s m with heq | ⟨h1, h2, h3⟩
+        · rcases ht with h0 | ⟨h1, h2⟩
+          · exact Or.inl (heq ▸ h0)
+          · obtain ⟨hl, hs'⟩ := hdone.2 h2
+            exact Or.inr ⟨by rw [hl, hs']; exact h1, by rw [hl]; exact h2⟩
+        · exact Or.inr ⟨h1.trans h2.symm, h3⟩)
+    ins [] (St.init offered)
+    ⟨rfl, (by simp [St.init]), (by intro i hi; cases offered <;> simp [St.init] at hi),
+      (by intro h; cases offered <;> simp_all [St.init]), Or.inl rfl⟩
+  obtain ⟨_, _, h3, h4, h5⟩ := key
+  simp only [List.nil_append] at h3
+  have hL : (clientLog offered ins) = (run (St.init offered) ins).log := rfl
+  rw [hL]
+  refine ⟨?_, ?_, ?_⟩
+  · intro hne
+    rcases h5 with h0 | ⟨_, hd⟩
+    · exact absurd h0 hne
+    · exact hd
+  · intro i hi
+    rcases h5 with h0 | ⟨he, _⟩
+    · rw [h0] at hi; cases hi
+    · exact h3 i (he ▸ hi)
+  · intro hi
+    rcases h5 with h0 | ⟨he, _⟩
+    · rw [h0] at hi; cases hi
+    · exact h4 (he ▸ hi)
+
+/-- Key material (master secret) is logged only by a handshake that completed, i.e. after the key exchange and
+    after a server Finished with the expected verify data was received and logged. -/
+theorem sched_km_after_finished (offered : Bool) (ins : List Item)
+    (h : (clientLog offered ins).keyMaterial = true) :
+    (clientLog offered ins).done = true ∧
+      ∃ i, (clientLog offered ins).serverFin = some i ∧ ins[i]? = some (.finished true) := by
+  have key := run_inv (fun pre s => s.n = pre.length ∧ (s.log.done = true → s.phase = .complete) ∧
+      (s.log.keyMaterial = true → s.log.done = true ∧ ∃ i, s.log.serverFin = some i ∧ pre[i]? = some (.finished true)))
+    (by
+      intro pre s m ⟨hn, hd, hk⟩
+      have hdone := step_done s m hd
+      refine ⟨by simp [step_n, hn], hdone.1, ?_⟩
+      intro hkm
+      rcases step_km s m with heq | ⟨_, h2, rfl, h4⟩
+      · obtain ⟨h1, i, h2, h3⟩ := hk (heq ▸ hkm)
+        have hl := (hdone.2 h1).1
+        exact ⟨by rw [hl]; exact h1, i, by rw [hl]; exact h2, snoc_old _ _ _ _ h3⟩
+      · exact ⟨h2, s.n, h4, snoc_len _ _ _ hn⟩)
+    ins [] (St.init offered) ⟨rfl, by simp [St.init], by simp [St.init]⟩
+  simpa [clientLog] using key.2.2 h
+
+/-- hypotheses satisfiable / the theorems are not vacuous: a full ECDHE handshake with a ticket, and cuts of it -/
+def schedEx : List Item :=
+  [.serverHello ⟨true, false, true, false, false, true, false, false, .ecdhe⟩, .certificate ⟨true, true, true, true⟩,
+   .serverKeyExchange true, .serverHelloDone, .newSessionTicket, .ccs, .finished true]
+
+example : clientLog false schedEx =
+    { clientHello := true, serverHello := some 0, certs := some 1, parsed := true, skx := some 2, ckx := true,
+      clientFin := true, serverFin := some 6, ticket := .msg 4, keyMaterial := true, done := true } := by decide
+example : (clientLog false (schedEx.take 5)).ticket = .none ∧ (clientLog false (schedEx.take 5)).keyMaterial = false := by decide
+example : (clientLog false (schedEx.take 2)).certs = none ∧ (clientLog false (schedEx.take 3)).certs = some 1 := by decide
+example : (clientLog true [.serverHello ⟨true, false, true, true, false, false, false, false, .ecdhe⟩, .ccs, .finished true]).ticket
+    = .cache := by decide
 
 end ZV.C28
